@@ -54,6 +54,9 @@ type appOpts struct {
 	ipValidation bool
 	trustProxy   bool
 	errMode      int // errhandler-helpers only
+	// a global pass-through middleware (with one every request has a matched route; without, the
+	// state "no route matched" is reached): both kinds of app are built
+	globalUse bool
 }
 
 var (
@@ -120,6 +123,9 @@ func buildSinkApp(o appOpts) *fiber.App {
 	}
 	// (no global middleware: with one, every request has a matched route, and what a context does
 	// when NO route matched - the state an error handler sees on a 404 - is never reached)
+	if o.globalUse {
+		app.Use(func(c fiber.Ctx) error { return c.Next() })
+	}
 	app.All("/errpage", func(c fiber.Ctx) error {
 		if c.Request().Header.IsHead() {
 			c.Set("X-Is-Head", "1")
@@ -496,7 +502,18 @@ func sink(c fiber.Ctx) error {
 		case 12:
 			err = c.SendFile("hello.txt", fiber.SendFile{FS: sinkMapFS, CacheDuration: -1})
 		case 13:
-			err = c.SendFile("missing.txt", fiber.SendFile{FS: sinkMapFS, CacheDuration: -1})
+			// names at the edge of the domain: missing, empty, the root, directories, absolute and
+			// parent paths - inside a file system and (odd k) relative to the process directory
+			k := 0
+			for i := 0; i < len(rid); i++ {
+				k += int(rid[i])
+			}
+			names := []string{"missing.txt", "", ".", "dir/", "dir", "/hello.txt", "../hello.txt", "hello.txt/"}
+			cfg := fiber.SendFile{CacheDuration: -1}
+			if (k/len(names))%2 == 0 {
+				cfg.FS = sinkMapFS
+			}
+			err = c.SendFile(names[k%len(names)], cfg)
 		case 14:
 			err = c.SendFile("dir/data.bin", fiber.SendFile{FS: sinkMapFS, Compress: true, ByteRange: true, Download: true, MaxAge: 60, CacheDuration: 10 * time.Second})
 		default:
@@ -710,7 +727,8 @@ func allocSite(e *ev.Env, c *ev.Case, mk func() *fiber.App, input []byte, limit,
 		{"compressed-body-inflate", rename("content-encoding")},
 		{"announced-content-length", realContentLength},
 		{"announced-chunk-size", dechunk},
-		{"bind-slice-index", rename("items")}, // index keys (items.N.f, items[N][f]) for the slice of structs the handler binds
+		{"response-compression", rename("accept-encoding")}, // the handler's SendFile(Compress) compresses for a client that accepts it
+		{"bind-slice-index", rename("items")},               // index keys (items.N.f, items[N][f]) for the slice of structs the handler binds
 		{"multipart-form", rename("multipart/form-data")},
 		{"typed-body", rename("content-type")},
 		{"range-header", func(in []byte) ([]byte, bool) {
@@ -1037,6 +1055,12 @@ func runSurvive(e *ev.Env) {
 			surviveCase(e, c, appOpts{}, reqs, raw, false, nil)
 		})
 	}
+	for i := 0; i < 16; i++ {
+		one("sendfile-edge-names-"+itoa(i), appOpts{}, get("/ks?rid=sfn"+string(rune('a'+i))+"&op=13"), 0)
+	}
+	one("global-use-empty-path", appOpts{globalUse: true}, []byte("GET  HTTP/1.1\r\nHost: x\r\n\r\n"), 0)
+	one("global-use-star-target", appOpts{globalUse: true}, []byte("OPTIONS * HTTP/1.1\r\nHost: x\r\n\r\n"), 0)
+	one("global-use-absolute-uri-no-path", appOpts{globalUse: true}, []byte("GET http://abs.example.org HTTP/1.1\r\nHost: x\r\n\r\n"), 0)
 	one("head-body-too-large", appOpts{}, []byte("HEAD /ks HTTP/1.1\r\nHost: x\r\nContent-Length: 99999999\r\n\r\n"), 0)
 	flashReq := func(v []byte) []byte {
 		return append(append([]byte("GET /ks?rid=c5 HTTP/1.1\r\nHost: x\r\nCookie: fiber_flash="), v...), "\r\n\r\n"...)
@@ -1064,7 +1088,7 @@ func runSurvive(e *ev.Env) {
 	}
 	e.Cases("pipe", nPipe, func(c *ev.Case) {
 		r := c.R
-		o := appOpts{kind: r.Intn(nCfg), ipValidation: r.Bool(), trustProxy: r.Bool(), errMode: r.Intn(nErrModes)}
+		o := appOpts{kind: r.Intn(nCfg), ipValidation: r.Bool(), trustProxy: r.Bool(), errMode: r.Intn(nErrModes), globalUse: r.Bool()}
 		g := &genCtx{r: r, methods: o.methods(), rbuf: o.readBuf(), blimit: o.bodyLimit()}
 		g.maxHdr = o.readBuf() - 120
 		g.maxBody = 0
@@ -1133,7 +1157,7 @@ func runSurvive(e *ev.Env) {
 	}
 	e.Cases("repeat", e.N(320, 8000), func(c *ev.Case) {
 		r := c.R
-		o := appOpts{kind: r.Intn(nCfg), ipValidation: r.Bool(), trustProxy: r.Bool(), errMode: r.Intn(nErrModes)}
+		o := appOpts{kind: r.Intn(nCfg), ipValidation: r.Bool(), trustProxy: r.Bool(), errMode: r.Intn(nErrModes), globalUse: r.Bool()}
 		g := &genCtx{r: r, methods: o.methods(), rbuf: o.readBuf(), blimit: o.bodyLimit(), maxHdr: o.readBuf() - 120}
 		if o.kind == cfgBodyLimit {
 			g.maxBody = 900
@@ -1257,9 +1281,15 @@ func surviveCase(e *ev.Env, c *ev.Case, o appOpts, reqs []*rq, raw []byte, mutat
 		}
 		if d > limit {
 			site := allocSite(e, c, mk, raw, limit, d)
-			e.Violation(c, "alloc|"+site, "one request of "+itoa(len(raw))+" bytes made the server allocate "+strconv.FormatUint(d, 10)+
-				" bytes (budget "+strconv.FormatUint(limit, 10)+")", map[string]any{"config": cfg, "input_hex": hexOf(raw), "input": show(raw),
-				"allocated": d, "budget": limit, "request_len": len(raw)})
+			if site == "response-compression" {
+				// the compressor's working memory (brotli: MiBs per stream, also when the answer
+				// ends up a 304): a fixed cost of the helper the handler chose, not of the request
+				e.Stat("response_compressed_over_plain_budget", 1)
+			} else {
+				e.Violation(c, "alloc|"+site, "one request of "+itoa(len(raw))+" bytes made the server allocate "+strconv.FormatUint(d, 10)+
+					" bytes (budget "+strconv.FormatUint(limit, 10)+")", map[string]any{"config": cfg, "input_hex": hexOf(raw), "input": show(raw),
+					"allocated": d, "budget": limit, "request_len": len(raw)})
+			}
 		}
 	} else {
 		w := drive.NewWire(mk())
